@@ -128,7 +128,11 @@ func producerOracle(m *MsgDesc, steps [][2]string) string {
 				return fmt.Sprintf("SetSessionIDAndSystemBytes(%d, %x) stored %d %x", sid, sys, after.sid, after.sys)
 			}
 		case "fill":
-			shared[st[1]] = "x_renamed"
+			if strings.HasPrefix(st[1], "...") {
+				shared[st[1]] = 1 // an ellipsis is filled with a repeat count
+			} else {
+				shared[st[1]] = "x_renamed"
+			}
 			tableBefore := envSnapshot(shared)
 			pan, _ = safely(func() { next = cur.FillVariables(shared) })
 			if envSnapshot(shared) != tableBefore {
@@ -140,6 +144,14 @@ func producerOracle(m *MsgDesc, steps [][2]string) string {
 			after := observe(next)
 			if d := before.diff(after, "item"); d != "" {
 				return "FillVariables changed other fields: " + d
+			}
+			// a producer is a function of the message and its arguments: the same call again
+			// gives an equal message
+			var again *ast.DataMessage
+			if p2, _ := safely(func() { again = cur.FillVariables(shared) }); p2 {
+				return "FillVariables is refused the second time it is called with the same message and table"
+			} else if d := after.diff(observe(again), ""); d != "" {
+				return "FillVariables with the same message and table gives a different result the second time: " + d
 			}
 		}
 		// the message the producer was called on is untouched
@@ -201,6 +213,9 @@ func suiteC18(c *Ctx) []Suite {
 						key, val := "nokey", sintTok(0, 1)
 						if len(vars) > 0 && c.R.Intn(4) > 0 {
 							key, val = vars[c.R.Intn(len(vars))].name, strTok(fmt.Sprintf("ren%d_%d", i, k))
+							if strings.HasPrefix(key, "...") {
+								val = sintTok(0, 1)
+							}
 						}
 						a := "1 " + hxs(key) + " " + val
 						ops = append(ops, "fill "+a)
@@ -669,6 +684,54 @@ func suiteC16(c *Ctx) []Suite {
 			}
 			return out
 		}},
+		{Name: "vars/after-renaming-fills", Gen: func(c *Ctx) []Case {
+			// fills that rename variables (string values), to fresh names and to names the tree
+			// already uses, at every depth and without touching the enclosing lists' own
+			// variables: either the fill is refused or no name is listed twice
+			var out []Case
+			for i := 0; i < c.N(1500); i++ {
+				names := &nameGen{}
+				tmpl := genNode(c.R, &GenOpt{MaxDepth: 4, MaxSlots: 4, PVar: 0.45, names: names}, 0)
+				var vars []varRef
+				collectVars(tmpl, &vars)
+				if len(vars) < 2 {
+					continue
+				}
+				asg := map[string]FillVal{}
+				var keys []string
+				for _, v := range vars {
+					if v.node.Kind == "AV" || c.R.Intn(3) > 0 {
+						continue
+					}
+					if v.node.Kind == "L" && c.R.Intn(2) == 0 {
+						continue // often leave the lists' own variables alone
+					}
+					nm := names.fresh(c.R)
+					if c.R.Intn(2) == 0 {
+						nm = vars[c.R.Intn(len(vars))].name
+					}
+					asg[v.name] = FillVal{Tok: strTok(nm)}
+					keys = append(keys, v.name)
+				}
+				if len(keys) == 0 {
+					continue
+				}
+				op := "fillitem " + tmpl.Proto() + " | " + envTokens(asg, keys)
+				impl := implEval(op)
+				cs := Case{Op: op, Impl: impl, Decisive: true, Nontrivial: true,
+					Tags: []string{"rename-fill:" + map[bool]string{true: "refused", false: "accepted"}[lastField(impl) == "PANIC"]}}.fields(itemKeys)
+				seen := map[string]bool{}
+				for _, v := range strings.Split(strings.TrimPrefix(project(lastField(impl), "vars"), "vars="), ",") {
+					if v != "" && v != "-" && seen[v] {
+						b, _ := unhx(v)
+						cs.Oracle = "after a renaming fill the variable name " + string(b) + " is listed twice"
+					}
+					seen[v] = true
+				}
+				out = append(out, cs)
+			}
+			return out
+		}},
 		{Name: "vars/messages", Gen: func(c *Ctx) []Case {
 			var out []Case
 			for i := 0; i < c.N(800); i++ {
@@ -684,7 +747,7 @@ func suiteC16(c *Ctx) []Suite {
 				out = append(out, cs)
 				// the same message addressed and with the wait bit decided: bytes iff no variables
 				if !p {
-					op := fmt.Sprintf("mprog %s | sess %d %s | wait %d", m.newStep(), m.Sid, hx(m.Sys), c.R.Intn(2))
+					op := fmt.Sprintf("mprog %s | %s | wait %d", m.newStep(), m.sessSteps(c.R), c.R.Intn(2))
 					c2 := Case{Op: op, Decisive: true, Nontrivial: true, Tags: []string{"msg-addressed"}}.fields("vars bytes")
 					var full *ast.DataMessage
 					if pan, _ := safely(func() { full = msg.SetSessionIDAndSystemBytes(m.Sid, m.Sys).SetWaitBit(false) }); !pan {
@@ -701,7 +764,7 @@ func suiteC16(c *Ctx) []Suite {
 				{Kind: "L", Slots: []Slot{{IsVar: true, Name: "item"}}}, {Kind: "L", Slots: []Slot{{Child: &Node{Kind: "AV", Name: "a", Min: 1, Max: 1}}}}} {
 				for w := 0; w < 3; w++ {
 					m := &MsgDesc{Item: it, Name: "n", S: 1, F: 13, W: w, Dir: "H->E", Sid: 7, Sys: []byte{0, 0, 0, 1}}
-					op := fmt.Sprintf("mprog %s | sess %d %s | wait 1", m.newStep(), m.Sid, hx(m.Sys))
+					op := fmt.Sprintf("mprog %s | %s | wait 1", m.newStep(), m.sessSteps(c.R))
 					out = append(out, Case{Op: op, Decisive: true, Nontrivial: true, Tags: []string{"msg-bare-variable"}}.fields("vars bytes"))
 				}
 			}
